@@ -1473,9 +1473,14 @@ fn pick_cropped_region<'a>(
     regions: &'a [CroppedRegion],
     location: &Location,
 ) -> Option<&'a CroppedRegion> {
+    // `end_line` counts the empty line after a trailing line break, so that end-of-input
+    // locations are covered; a region reaching a line only in that sense does not contain the
+    // line's text. Prefer a region that really holds the line.
+    let line = location.line as usize;
     regions
         .iter()
-        .find(|r| r.covers(location))
+        .find(|r| r.covers(location) && line < r.end_line)
+        .or_else(|| regions.iter().find(|r| r.covers(location)))
         .or_else(|| regions.first())
 }
 
